@@ -196,6 +196,19 @@ class Chan(Engine):
             return
         ctx.carry()
         ctx.check(text == want, 'C10.ref', 'text form of (version %d, %d-byte payload) is %s, the definition gives %s' % (ver, len(payload), text, want), plen=len(payload))
+        # the payload may be handed over in any bytes-like flavour: a bytearray, a memoryview-free copy, or an
+        # existing Base58Check object that carries ANOTHER version (re-tagging a payload for another chain)
+        sel = a['multi'][0][2] if a['multi'] else 0
+        other = B58.CBase58Data.from_bytes(payload, (ver + 1 + sel % 255) % 256)
+        for flavour, pl in (('bytearray', bytearray(payload)), ('Base58Check object of version %d' % other.nVersion, other),
+                            ('decoded Base58Check object', B58.CBase58Data(str(other)))):
+            try:
+                t2 = str(B58.CBase58Data.from_bytes(pl, ver))
+            except Exception as e:
+                t2 = 'raised %s' % type(e).__name__
+            ctx.check(t2 == want, 'C10.ref', 'text form of (version %d, %d-byte payload given as a %s) is %s, the definition gives %s' % (ver, len(payload), flavour, t2, want),
+                      plen=len(payload), flavour=flavour.split(' of ')[0])
+        ctx.probe('payload-flavours')
         if a['multi'] and a['multi'][0][0] % 2 and len(want) > 2:
             # this receiver meets corrupted copies before it ever sees the genuine string
             for q in (len(want) - 1, len(want) // 2, 1):
